@@ -6,7 +6,6 @@ import (
 	"go/token"
 	"go/types"
 	"sort"
-	"strings"
 
 	"golang.org/x/tools/go/ssa"
 
@@ -866,11 +865,7 @@ func c03r9(c *an.Ctx) {
 			if !ok {
 				return
 			}
-			obj := an.CalleeObj(ci.Common())
-			if obj == nil || obj.Pkg() == nil || obj.Pkg().Path() != "sync/atomic" || !strings.HasPrefix(obj.Name(), "Store") {
-				return
-			}
-			if fv := an.PathOf(ci.Common().Args[0]).Last(); fv == nil || fv.Origin() != held.Origin() {
+			if a, isA := an.AtomicOn(ci, held); !isA || a.Kind == "load" {
 				return
 			}
 			n++
